@@ -90,12 +90,9 @@ def d16_1(ctx):
     got = _norm(struct_members(ctx, mio) or [])
     ctx.check(got == want_id, ckey(mio.key, "layout"), mio.node, "vendor, product_type, product_code UINT; revision USINT+USINT; status 2 bytes; serial UDINT; product_name SHORT_STRING",
               f"ModuleIdentityObject members {got} differ from the Identity object {want_id}", got=got)
-    ip = ctx.model.cls(f"{CT}:IPAddress")
-    from ..codecs import reads
-    rl = reads(ctx, ip)[2]
-    enc = ip.methods.get("_encode")
-    packed = enc is not None and any(isinstance(r, ast.Return) and isinstance(r.value, ast.Attribute) and r.value.attr == "packed" and isinstance(r.value.value, ast.Call) and (call_name(r.value.value) or "").endswith("IPv4Address") for r in walk(enc))
-    ctx.check(rl == [("read", 4)] and packed, ckey(ip.key, "width"), ip.node, "IPv4 address: 4 packed bytes both ways", f"IPAddress reads {rl} / writes packed={packed}; the socket address field is 4 bytes", read=[list(x) for x in (rl or [])])
+    from .driver import _ipaddress_rule
+
+    _ipaddress_rule(ctx)  # the socket address field: 4 packed bytes <-> dotted quad, folded on witness addresses (D16.11)
     rev = ctx.model.cls(f"{CT}:Revision")
     gr = _norm(struct_members(ctx, rev) or [])
     ctx.check(gr == [["major", "USINT", 1], ["minor", "USINT", 1]], ckey(rev.key, "layout"), rev.node, "major USINT, minor USINT", f"Revision members {gr}", got=gr)
@@ -195,13 +192,12 @@ def d16_2(ctx):
             continue
         ctx.check(not bad, key, fn, f"vendor / product type ids become their table names ('{sp['unknown_text']}' outside the tables), serial as 8 hex digits - on {len(samples)} witnesses",
                   f"{c.name}._decode post-processing deviates on {len(bad)} of {len(samples)} witnesses, e.g. {bad[:2]}", witnesses=len(samples))
-        sup = [n for n in walk(fn) if isinstance(n, ast.Call) and isinstance(n.func, ast.Attribute) and n.func.attr == "_decode" and isinstance(n.func.value, ast.Call) and call_name(n.func.value) == "super"]
-        ctx.check(len(sup) == 1 and atom_name(sup[0].args[0]) == "stream", ckey(c.key + "._decode", "base"), fn or c.node, "fields come from the Struct decoder on the same stream", "identity _decode does not start from the Struct decoder of the same stream")
-    e = mio.methods.get("_encode")
-    got = _post(ctx, e, mio.module) if e else {}
-    good = got.get("product_type") == ("index", "PRODUCT_TYPES", "values['product_type']") and got.get("vendor") == ("index", "VENDORS", "values['vendor']") and got.get("serial", ("",))[0] == "other" and "fromhex" in got["serial"][1]
-    copy = any(isinstance(n, ast.Assign) and atom_name(n.targets[0]) == "values" and isinstance(n.value, ast.Call) and attr_path(n.value.func) == "values.copy" for n in walk(e)) if e else False
-    ctx.check(good and copy, ckey(mio.key + "._encode", "inverse"), e or mio.node, "encode maps names back to ids and hex text back to the serial on a copy", f"ModuleIdentityObject._encode does not invert the decoder: {got}")
+    # the fields come from the structure decoder on the same stream, and encode inverts decode on a copy of its argument: decided by
+    # folding both identity classes end to end on witness identities (D16.10) - an earlier form looked for the `super()._decode(stream)`
+    # call and compared the source text of the assignments in `_encode`
+    from .driver import _identity_rule
+
+    _identity_rule(ctx)
 
 
 @rule(P, "D16.3", "T-SPEC", floor=1)
@@ -285,8 +281,12 @@ def d16_5(ctx):
 
 @rule(P, "D16.6", "T-DOM", floor=1)
 def d16_6(ctx):
-    """Identity strings of any length decode, including the empty product name (zero-count guard in the string member's decoder)."""
+    """Identity strings of any length decode, including the empty product name (zero-count guard in the string member's decoder; and
+    the identity with an empty name among the end-to-end witnesses of D16.10)."""
     from ..codecs import zero_read_problems, effective
+    from .driver import _identity_rule
+
+    _identity_rule(ctx)
     seen = set()
     for cname in ("ModuleIdentityObject", "ListIdentityObject"):
         c = ctx.model.cls(f"{CT}:{cname}")
